@@ -1,6 +1,8 @@
 """Implementation adapter for C06: same line protocol as ocaml/c06_driver.ml, answers from /repo through
 Transaction.parse / parse_hex / parse_bytes / raw / txid, Transaction(...) + add_input / add_output,
-Block.parse_bytes(parse_transactions=True) / serialize / parse_transactions_dict / target."""
+Block.parse_bytes(parse_transactions=True) / serialize / parse_transactions_dict / target; sequences of reader calls on
+one Block object (Block.parse / parse_bytes / parse_bytesio with parse_transactions and limit, parse_transactions(k),
+parse_transaction, parse_transactions_dict, parse_transaction_dict, serialize)."""
 import sys, os, logging
 sys.path.insert(0, os.path.dirname(os.path.abspath(__file__)))
 from common_impl import hx, unhx, serve
@@ -94,6 +96,67 @@ def do_block(raw):
     return first + ' D:' + second
 
 
+def do_bsess(t):
+    """bsess <raw> <entry>:<P>:<k> <op> ... — reader calls on ONE Block object.
+    entry: pb Block.parse_bytes, p Block.parse(bytes), pio Block.parse(BytesIO), pbio Block.parse_bytesio(BytesIO)
+    op: T<k> parse_transactions(k) | t parse_transaction() | D parse_transactions_dict() | d parse_transaction_dict()
+        | S serialize()
+    answer: one field per step (the opening call first) `result;txids of Block.transactions;tx_count`, joined by ' | '"""
+    from io import BytesIO
+    raw = unhx(t[1])
+    ent, ptx, lim = t[2].split(':')
+    ptx, lim = ptx == '1', int(lim)
+    b = None
+
+    def snap(res):
+        return '%s;%s;%d' % (res, ','.join(x.txid for x in b.transactions) or '-', b.tx_count)
+
+    def dtok(d):
+        return hx(d['txid']) + '/' + hx(d['rawtx'])
+    try:
+        if ent == 'pb':
+            b = Block.parse_bytes(raw, parse_transactions=ptx, limit=lim)
+        elif ent == 'p':
+            b = Block.parse(raw, parse_transactions=ptx, limit=lim)
+        elif ent == 'pio':
+            b = Block.parse(BytesIO(raw), parse_transactions=ptx, limit=lim)
+        else:
+            b = Block.parse_bytesio(BytesIO(raw), parse_transactions=ptx, limit=lim)
+        steps = [snap('ok')]
+    except RecursionError:
+        raise
+    except Exception as e:
+        return 'ERR ' + type(e).__name__
+    for op in t[3:]:
+        try:
+            if op[0] == 'T':
+                r = b.parse_transactions(int(op[1:]))
+                res = 'ok' if r is None else 'RET'
+            elif op == 't':
+                r = b.parse_transaction()
+                res = 'F' if r is False else r.txid
+            elif op == 'D':
+                r = b.parse_transactions_dict()
+                res = ','.join(dtok(d) for d in r) or '-'
+            elif op == 'd':
+                r = b.parse_transaction_dict()
+                res = 'F' if r is False else dtok(r)
+            elif op == 'S':
+                try:
+                    res = hx(b.serialize())
+                except ValueError:
+                    res = 'NOSER'
+            else:
+                return 'BADREQ'
+        except RecursionError:
+            raise
+        except Exception as e:
+            res = 'ERR ' + type(e).__name__
+        steps.append(snap(res))
+    steps.append('#' + hx(b.block_hash))
+    return ' | '.join(steps)
+
+
 def do_target(bits):
     b = Block('00' * 32, 1, '00' * 32, '00' * 32, 0, bits, 0)
     tg = b.target
@@ -110,6 +173,8 @@ def dispatch(t):
         return do_block(unhx(t[1]))
     if k == 'target':
         return do_target(int(t[1]))
+    if k == 'bsess':
+        return do_bsess(t)
     return 'BADREQ'
 
 
